@@ -157,6 +157,12 @@ def run(ctx):
             if not cfg["joint"]:
                 cfg["lens"] = [cfg["W"] + ctx.rng.randint(120, 170)]
             cfgs.append(cfg)
+        # runs that really repopulate a cluster (the donor's membership changes OUTSIDE the labelling step)
+        for _ in range(2 if ctx.quick() else 10):
+            rc_ = tu.find_repopulating_config(ctx.rng)
+            if rc_ is not None:
+                cfgs.append(rc_)
+                ctx.count("repopulating_configs")
         for i in range(4 if ctx.quick() else 40):
             # caller-side dtypes other than float64 (integer counts, single precision): the fitted means are not
             # representable in the data's dtype
@@ -287,11 +293,25 @@ def run(ctx):
                 for k, cs in enumerate(snap["clusters"]):
                     theta = np.atleast_2d(cs["train"])
                     mu = np.atleast_1d(cs["mean"])
+                    # "whose mean is the cluster's window mean": recomputed from the windows the cluster HOLDS in this
+                    # state, not read off the state (a statistic carried over from an earlier membership is not it)
+                    mem_ = [int(i_) for i_ in (cs.get("members") or [])]
+                    if mem_:
+                        mu_def = np.asarray(stacked[mem_], dtype=float).mean(axis=0)
+                        if not np.allclose(mu, mu_def, rtol=1e-9, atol=1e-9 * (1.0 + float(np.max(np.abs(mu_def))))):
+                            bad_cell = ("mean", k, float(np.max(np.abs(mu - mu_def))), len(mem_))
+                            break
+                        mu = mu_def
                     for p_ in range(0, stacked.shape[0], max(1, stacked.shape[0] // 25)):
                         want = -indep_ll(stacked[p_], mu, theta)
                         if not oracles.rel_close(table[p_, k], want, 1e-9, 1e-6):
                             bad_cell = (p_, k, float(table[p_, k]), want)
             except np.linalg.LinAlgError:
+                break
+            if bad_cell and bad_cell[0] == "mean":
+                ctx.violation("impl-violation",
+                              f"round {j}: the mean cluster {bad_cell[1]} is scored with differs by {bad_cell[2]:.3g} from the mean of the "
+                              f"{bad_cell[3]} windows it holds in that round", cfg, {"site": "ll-drives-labelling", "cause": "stale-mean"})
                 break
             if bad_cell:
                 ctx.violation("impl-violation",
